@@ -47,6 +47,7 @@ SwhSliceOffset(h, e, n) == Extend(h, ArrayLayout(e, n))[2]
 
 UnitMeta  == L(0, 1)     \* PtrMetadata = ()
 UsizeMeta == L(8, 8)     \* PtrMetadata = usize (slice length)
+U32Meta   == L(4, 4)     \* PtrMetadata = u32: a CLIENT pointer kind (gc_arena::meta::PtrMeta / AllocMeta) for [E]
 
 \* ---------------------------------------------------------------- grid points
 SizedPoints == {[kind |-> "sized", bytes |-> p[1], align |-> p[2]] : p \in SizedGrid}
@@ -54,14 +55,18 @@ SlicePoints == {[kind |-> "slice", esize |-> e[1], ealign |-> e[2], len |-> n] :
 StrPoints   == {[kind |-> "str", len |-> n] : n \in Lens}
 SwhPoints   == {[kind |-> "swh", hsize |-> h[1], halign |-> h[2], esize |-> e[1], ealign |-> e[2], len |-> n] :
                   h \in HeaderGrid, e \in SwhElems, n \in Lens}
-Points == SizedPoints \cup SlicePoints \cup StrPoints \cup SwhPoints
+\* "cslice": [E] under a client-written pointer kind whose length metadata is a u32 and whose AllocMeta::layout is
+\* Layout::array::<E>(len) -- metadata narrower than a word, which no kind shipped with the crate has
+CSlicePoints == {[kind |-> "cslice", esize |-> e[1], ealign |-> e[2], len |-> n] : e \in ElemGrid, n \in Lens}
+Points == SizedPoints \cup SlicePoints \cup StrPoints \cup SwhPoints \cup CSlicePoints
 
 ValueLayout(p) ==
   CASE p.kind = "sized" -> L(RoundUp(p.bytes, p.align), p.align)
     [] p.kind = "slice" -> SwhLayout(L(0, 1), L(p.esize, p.ealign), p.len)
     [] p.kind = "str"   -> SwhLayout(L(0, 1), L(1, 1), p.len)
+    [] p.kind = "cslice" -> ArrayLayout(L(p.esize, p.ealign), p.len)
     [] p.kind = "swh"   -> SwhLayout(L(p.hsize, p.halign), L(p.esize, p.ealign), p.len)
-MetaLayout(p) == IF p.kind = "sized" THEN UnitMeta ELSE UsizeMeta
+MetaLayout(p) == IF p.kind = "sized" THEN UnitMeta ELSE IF p.kind = "cslice" THEN U32Meta ELSE UsizeMeta
 
 \* what GcPtr::alloc asks the allocator for, and where it puts things (offsets from the block start)
 Expect(p) ==
